@@ -18,7 +18,7 @@ def relevant(c):
                                         "C06-at-most-one-open-socket-per-server")
 
 
-OPS = [("get", None), ("set", False), ("set_many", None), ("delete_many", False)]
+OPS = [("get", None), ("set", False), ("incr", False), ("set_many", None), ("delete_many", False)]
 FAULTS = [None, {("recv", 1): "timeout"}, {("reply", 0): "client_error"}, {("sendall", 1): "reset"},
           {("recv", 1): "eof"}, {("connect", 1): "refused"}, {("reply", 0): ("trunc", 3, True)}, {("reply", 0): "badvalue"}]
 IDLE = 5
@@ -29,7 +29,7 @@ def main(tier, rep):
     vclock.install()
     common.import_repo()
     length = 2 if tier == "quick" else 3
-    ops = OPS[:2] if tier == "quick" else OPS[:3]
+    ops = OPS[:3]
     faults = FAULTS if tier == "quick" else FAULTS[:5] + FAULTS[7:]
     step_choices = [(op, nr, f, g) for (op, nr) in ops for f in faults for g in GAPS]
     traces = []
@@ -47,7 +47,7 @@ def main(tier, rep):
         for si, seq in enumerate(seqs):
             n += 1
             # every configuration sees every sequence in thorough; a rotating third in quick
-            if tier == "quick" and pick.random() >= 0.15:
+            if tier == "quick" and pick.random() >= 0.07:
                 continue
             if tier == "thorough" and (si + ci) % 6 != 0:
                 continue
@@ -58,6 +58,25 @@ def main(tier, rep):
                 steps.append(("tick", g))
             steps.append(("call", "add", False, None, "all"))
             traces.append(L.run_program(cfg, steps, miss=L.miss_result(cfg)))
+    if tier != "quick":
+        # all five operations (multi-command ones included) in every pair of steps
+        sc2 = [(op, nr, f, g) for (op, nr) in OPS for f in faults for g in GAPS]
+        for ci, ce in enumerate(cfgs):
+            for si, seq in enumerate(itertools.product(sc2, repeat=2)):
+                n += 1
+                if (si + ci) % 3:
+                    continue
+                cfg = L.Cfg(default_noreply=(n % 2 == 0), **ce)
+                steps = []
+                for (op, nr, f, g) in seq:
+                    steps += [("call", op, nr, f, L.SEGS[n % 4]), ("tick", g)]
+                steps.append(("call", "add", False, None, "all"))
+                traces.append(L.run_program(cfg, steps, miss=L.miss_result(cfg)))
+    # every public operation x every single-fault plan (each socket call, each reply) on the pooled stacks, warm and fresh
+    for mp in (1, None):
+        for cfgp, steps in L.gen_fault_programs(["pooled", "hashpooled"], L.ALL_OPS, tier, seed=common.seed() + (mp or 0),
+                                                cfg_extra={"max_pool": mp, "idle": IDLE}, quick_stride=3):
+            traces.append(L.run_program(cfgp, steps))
     L.validate(rep, traces, relevant, PROP)
     # spec -> code: the pooled + idle-clock variant of the as-coded model spec/Conn.tla
     from drivers import connmodel
